@@ -67,7 +67,7 @@ var resultTypes = []*Type{tInt, tInt, tInt, tBool, tString, tPInt, tSlice, tS, t
 
 // localTypes are the types a plain `v := expr` may draw.
 var localTypes = []*Type{tInt, tInt, tInt, tInt, tBool, tString, tString, tInt8, tUint8, tInt32, tUint64,
-	tSlice, tArr, tS, tPInt, tI, tMapII, tMapSI, tPS}
+	tSlice, tArr, tArr, tS, tPInt, tPInt, tI, tMapII, tMapSI, tPS}
 
 func (t *Type) isInt() bool { return t.Kind == kInt }
 
